@@ -161,6 +161,60 @@ def adaptation_search(ctx):
                "value finalized after >= 1 update (or the initial value)", bad == 0, f"{bad} failures")
 
 
+class CountingCoeffAdapter:
+    """fast adapter for a transition WITHOUT statistics (momentum refreshment): counts its updates and finalises the coefficient from them"""
+    is_fast = True
+    log = []
+
+    def initialize(self, chain_state, transition):
+        return {"n": 0}
+
+    def update(self, adapt_state, chain_state, trans_stats, transition):
+        adapt_state["n"] += 1
+        CountingCoeffAdapter.log.append(("update", trans_stats))
+
+    def finalize(self, adapt_states, chain_states, transition, rngs):
+        states = [adapt_states] if isinstance(adapt_states, dict) else list(adapt_states)
+        n = sum(a["n"] for a in states)
+        CountingCoeffAdapter.log.append(("finalize", n))
+        transition.mom_resample_coeff = 1.0 / (1.0 + n)
+
+
+def statless_transition_search(ctx):
+    """an adapter attached to a transition that returns no statistics is active in every warm-up stage like any other fast adapter"""
+    import mici
+    from mici.adapters import Adapter
+    from mici.samplers import MarkovChainMonteCarloMethod
+    from mici.transitions import CorrelatedMomentumTransition, MetropolisStaticIntegrationTransition
+    Adapter.register(CountingCoeffAdapter)
+    system = mici.systems.EuclideanMetricSystem(lambda q: 0.5 * q @ q, grad_neg_log_dens=lambda q: q)
+    bad = 0
+    grid = [(n_warm, st) for n_warm in (0, 1, 4, 12, 30) for st in (None, (3, 2, 0, 2), (25, 75, 50, 2))]
+    for n_warm, st in grid:
+        for n_chain in (1, 2):
+            rng = np.random.default_rng(int(ctx.rng.integers(0, 2 ** 31)))
+            mom = CorrelatedMomentumTransition(system, mom_resample_coeff=0.03125)
+            integ = MetropolisStaticIntegrationTransition(system, mici.integrators.LeapfrogIntegrator(system, step_size=0.2), n_step=2)
+            sampler = MarkovChainMonteCarloMethod(rng, {"momentum": mom, "integration": integ})
+            CountingCoeffAdapter.log = []
+            stager = mici.stagers.WarmUpStager() if st is None else mici.stagers.WindowedWarmUpStager(*st)
+            from mici.states import ChainState
+            inits = [ChainState(pos=rng.standard_normal(2), mom=rng.standard_normal(2), dir=1) for _ in range(n_chain)]
+            sampler.sample_chains(n_warm, 4, inits, adapters={"momentum": [CountingCoeffAdapter()]}, stager=stager, display_progress=False, trace_funcs=None)
+            n_upd = sum(1 for e in CountingCoeffAdapter.log if e[0] == "update")
+            fins = [e[1] for e in CountingCoeffAdapter.log if e[0] == "finalize"]
+            ctx.case(("statless", n_warm, st, n_chain))
+            ctx.count("search:adapter_on_transition_without_statistics")
+            want_coeff = 0.03125 if not fins else 1.0 / (1.0 + fins[-1])
+            if n_upd != n_warm * n_chain or (fins and sum(fins) != n_warm * n_chain) or abs(mom.mom_resample_coeff - want_coeff) > 1e-15:
+                bad += 1
+                ctx.fail("adapter_on_statless_transition", f"adapter attached to CorrelatedMomentumTransition (no statistics), n_warm_up_iter={n_warm}, stager={st}, chains={n_chain}: "
+                         f"{n_upd} updates for {n_warm * n_chain} warm-up iterations, finalised counts {fins}, main stage ran with coefficient {mom.mom_resample_coeff!r}",
+                         {"n_warm": n_warm, "stager": st, "n_chain": n_chain, "updates": n_upd, "finalize_counts": fins})
+    ctx.oblige(f"search: {len(grid) * 2} runs with a fast adapter on a transition that returns no statistics: one update per warm-up iteration and chain, the main stage uses "
+               "the value finalised from them", bad == 0, f"{bad} failures")
+
+
 def run(ctx):
     ctx.rule = ("stager cases: every n_warm below a bound x settings x flags (+ random large); sampler cases: random stage lists / real stagers x "
                 "adapter configurations x chains; distinct = distinct case tuple")
@@ -178,3 +232,4 @@ def run(ctx):
         cases = [sampler_corr.gen_case(ctx.rng, "plain") for _ in range(n)]
         sampler_corr.run_cases(ctx, cases, "stage-loop")
     adaptation_search(ctx)
+    statless_transition_search(ctx)
